@@ -169,6 +169,38 @@ def batch_twice_failure(seed):
     return None
 
 
+def kinds_failure(radius, shape):
+    """a Circular and a RadialGradient pattern with the same radius queried for the same shape one after the other (never seen before in this
+    process): each gives its own mask -- the flat disk is 1 on its centre pixel, the radial gradient 0"""
+    from libertem_blobfinder.common import patterns as pat_
+    cy, cx = shape[0] // 2, shape[1] // 2
+    for order in (('Circular', 'RadialGradient'), ('RadialGradient', 'Circular')):
+        r_ = radius + (0.0 if order[0] == 'Circular' else 0.125)          # another key for the second order
+        got = {}
+        for kd in order:
+            pobj = pat_.Circular(radius=r_, search=r_ + 2) if kd == 'Circular' else pat_.RadialGradient(radius=r_, search=r_ + 2)
+            got[kd] = np.array(pobj.get_mask(shape), dtype=float)
+        if not (abs(got['Circular'][cy, cx] - 1.0) < 1e-12 and abs(got['RadialGradient'][cy, cx]) < 1e-12):
+            return ('%s(radius=%s) then %s(radius=%s), both queried for shape %s: centre pixel of the flat disk %.4g (must be 1), of the radial gradient %.4g (must be 0)'
+                    % (order[0], r_, order[1], r_, shape, got['Circular'][cy, cx], got['RadialGradient'][cy, cx]))
+        if not np.allclose(got['Circular'], cl.render_disk(cy, cx, shape[0], shape[1], r_, True), atol=1e-12):
+            return 'Circular(radius=%s).get_mask(%s) queried %s a RadialGradient of the same radius is not the antialiased disk' % (r_, shape, 'after' if order[1] == 'Circular' else 'before')
+    return None
+
+
+def own_map_failure(radius, ro, shape, factor):
+    """a RadialGradientBackgroundSubtraction whose own radial_map is rescaled IN PLACE between two queries (the library re-reads the parameters on
+    every query): it then gives what a fresh object built with that rescaled map gives"""
+    from libertem_blobfinder.common import patterns as pat_
+    pobj = pat_.RadialGradientBackgroundSubtraction(radius=radius, radius_outer=ro, search=ro + 1)
+    pobj.get_mask(shape)
+    pobj.radial_map *= factor
+    fresh = pat_.RadialGradientBackgroundSubtraction(radius=radius, radius_outer=ro, search=ro + 1, radial_map=np.array(pobj.radial_map, copy=True))
+    if not np.array_equal(pobj.get_mask(shape), fresh.get_mask(shape), equal_nan=True):
+        return 'RadialGradientBackgroundSubtraction(radius=%s, radius_outer=%s): after its radial_map was rescaled in place by %s the mask for shape %s is not that of a fresh object with the rescaled map' % (radius, ro, factor, shape)
+    return None
+
+
 def mk_replay(desc, shape, nmax, calls, method, crop, bc, prefill, fail):
     return {'kind': 'history', 'call': 'process_frame_%s x %d' % (method.split('-')[0] + (' (strided output views)' if 'strided' in method else ''), len(calls)),
             'args': {'pattern': desc, 'shape': list(shape), 'nmax': nmax, 'method': method, 'crop': crop, 'buffer_count': bc, 'prefill': prefill,
@@ -180,6 +212,13 @@ def replay(body):
     if 'frame_ints' in body.get('args', {}):
         return cl.replay_case(body, 'C09')          # a failing input recorded by the model correspondence (cl.model_check)
     a = body['args']
+    if 'kinds' in a or 'own_map' in a:
+        fail = kinds_failure(a['kinds']['radius'], tuple(a['kinds']['shape'])) if 'kinds' in a else own_map_failure(a['own_map']['radius'], a['own_map']['ro'], tuple(a['own_map']['shape']), a['own_map']['factor'])
+        print(json.dumps({'failure_now': fail}, indent=1))
+        if fail:
+            print('VIOLATION property=C09 replay=(given)')
+            return 1
+        return 0
     if 'batch_twice_seed' in a:
         fail = batch_twice_failure(a['batch_twice_seed'])
         print(json.dumps({'failure_now': fail}, indent=1))
@@ -288,6 +327,19 @@ def run(ctx):
         ctx.count(4, key=('batch twice', sd))
         if fail:
             ctx.violation('input', fail, {'kind': 'history', 'call': 'process_frames_full / process_frames_fast twice on one stack', 'args': {'batch_twice_seed': sd}, 'failure': fail})
+            break
+    for k in range(ctx.n(8, 40)):
+        radius, shape = 2.0 + 0.25 * k + 0.03125, (int(rng.integers(12, 40)), int(rng.integers(12, 40)))        # radii used nowhere else in this check
+        fail = kinds_failure(radius, shape)
+        ctx.count(4, key=('kinds', radius, shape))
+        if fail:
+            ctx.violation('input', fail, {'kind': 'history', 'call': 'Circular / RadialGradient get_mask', 'args': {'kinds': {'radius': radius, 'shape': list(shape)}}, 'failure': fail})
+            break
+        ro, factor = radius + 2.0, float(rng.choice([0.7, 1.3, 0.5]))
+        fail = own_map_failure(radius, ro, shape, factor)
+        ctx.count(2, key=('own map', radius, ro, shape, factor))
+        if fail:
+            ctx.violation('input', fail, {'kind': 'history', 'call': 'RadialGradientBackgroundSubtraction.radial_map rescaled in place', 'args': {'own_map': {'radius': radius, 'ro': ro, 'shape': list(shape), 'factor': factor}}, 'failure': fail})
             break
     # pattern objects and matchers re-used across queries
     nobj = 0
